@@ -51,7 +51,7 @@ class Prop:
     rule = ("(a) corpus of defect witnesses (mut.CORPUS + C13.CORPUS); (b) invalid arguments, exhaustive: every ordered forest with <= N nodes "
             "(N=3 quick, 4 thorough) under three labelings (distinct strings / equal-comparing objects with distinct explicit ids / clones in "
             "different parents) in tree 0 next to a second tree of two nodes whose top node carries the data of tree 0's first node, plain "
-            "(thorough: also typed, <= 3 nodes); on it every operation with every documented-invalid argument and its nearest valid "
+            "(thorough: also typed, <= 3 nodes; at the largest size the high-volume families are sampled); on it every operation with every documented-invalid argument and its nearest valid "
             "neighbours: add under every parent with before in {node of another parent, node of the other tree, bools, in-range / negative / "
             "too large indexes, a child, None, 0}, colliding data and colliding explicit ids at every position, the four shortcuts with "
             "colliding data, add(node) of every node of both trees under every parent x deep in {None, True, False} (same parent, own branch, "
@@ -111,14 +111,15 @@ class Prop:
             groups += list(M.invalid_groups(3, labelings=("distinct", "clones"), thin=True))
             groups += list(M.invalid_groups(2, labelings=("equal",), thin=True))
         else:
-            groups += list(M.invalid_groups(4))
-            groups += list(M.invalid_groups(3, typed=(True,), labelings=("distinct", "clones")))
+            groups += list(M.invalid_groups(3))
+            groups += list(M.invalid_groups(4, nmin=4, labelings=("distinct", "clones"), thin=True))
+            groups += list(M.invalid_groups(3, typed=(True,), labelings=("distinct", "clones"), thin=True))
         for g in groups:
             alts = g["alts"]
             if quick and g["n"] == 3:
                 alts = [a for i, a in enumerate(alts) if (a[0] not in BULK and i % 2 == 0) or i % 3 == 0]
             if not quick and g["n"] == 4:
-                alts = [a for i, a in enumerate(alts) if a[0] not in BULK or i % 3 == 0]
+                alts = [a for i, a in enumerate(alts) if (a[0] not in BULK and i % 2 == 0) or i % 5 == 0]
             for i in range(0, len(alts), CHUNK):
                 yield dict(kind="alts", univ=g["univ"], setup=g["setup"], alts=alts[i:i + CHUNK], label=g["label"])
         # (c) fault injection, model vocabulary
@@ -162,7 +163,7 @@ class Prop:
                         ["rename", 0, ids[0], new_d], ["del", 0, {"d": new_d}],
                         ["from_dict", 0, ids[-1], [[f1, None, [[f2, None, []], [f3, None, []]]], [new_d, None, []]]],
                         ["from_dict", 0, ids[-1], [[f1, None, []], [f2, None, [[f3, None, [[new_d, None, []]]]]]]]]
-                if quick and n >= 3:
+                if n >= (3 if quick else 4):
                     cops = cops[::2]
                 for op in cops:
                     hs, _ = M.calc_fault_hists(univ, setup, op, fn="name")
@@ -178,7 +179,7 @@ class Prop:
                         continue
                     yield dict(kind="probe", univ=st[0], setup=st[1], typed=ty, label=lname + ("/typed" if ty else ""))
         # (e) random histories
-        nrand = 16 if quick else 500
+        nrand = 16 if quick else 160
         for i in range(nrand):
             n_ops = rng.randint(8, 25 if quick else 40)
             h = (mut.gen_malformed if i % 2 == 0 else mut.gen_random)(rng, n_ops)
